@@ -20,7 +20,7 @@ import (
 )
 
 func init() {
-	Register(&Rule{Name: "WORD", Floor: 15, Run: runWord,
+	Register(&Rule{Name: "WORD", Floor: 10, Run: runWord,
 		Doc: "only kernel results, reduced values (%, /, -), loaded words, table powers and constants below the base are stored into mantissa words or passed as scalar words to the decimal kernels; raw sums, products, shifts and decoded bytes are not"})
 }
 
@@ -135,6 +135,16 @@ func (e *wordEngine) bounded(v ssa.Value, depth int, seen map[ssa.Value]bool) (b
 				}
 			}
 			return false, fmt.Sprintf("%s of an unbounded value", x.Op)
+		case token.MUL:
+			// (a / b) * b <= a: rounding a down to a multiple of b
+			for _, pr := range [][2]ssa.Value{{x.X, x.Y}, {x.Y, x.X}} {
+				if q, ok := stripConv(pr[0]).(*ssa.BinOp); ok && q.Op == token.QUO && structEq(stripConv(q.Y), stripConv(pr[1]), 4) {
+					if ok, _ := e.bounded(q.X, depth-1, seen); ok {
+						return true, ""
+					}
+				}
+			}
+			return false, "raw * (can reach or exceed the base)"
 		default:
 			return false, fmt.Sprintf("raw %s (can reach or exceed the base)", x.Op)
 		}
